@@ -228,6 +228,49 @@ Theorem create_archive_extract_real : forall c o out order t pw rb jobs,
 Proof. apply (create_archive_extract real_E_of real_D_of compress decompress verify real_D_len real_DE real_E_len compress_law compress_det). Qed.
 End TransportReal.
 
+(* ---- the format's ranges, read off the tree: wf_spec of every entry `create` builds -------------------------- *)
+(* what the container cannot hold is outside: names that are not UTF-8 (EntryName::from_lossy would replace bytes),
+   modes above 16 bits, times above 64 bits, attribute names or values of 4 GiB, owner names above 255 bytes *)
+Definition aux_ok (a : aux) : Prop :=
+  opt_all (fun t => t < 2 ^ 64) (a_ctime a) /\ opt_all (fun t => t < 2 ^ 64) (a_atime a) /\
+  a_uid a < 2 ^ 64 /\ a_gid a < 2 ^ 64 /\ len (a_uname a) <= 255 /\ len (a_gname a) <= 255 /\
+  utf8_valid (a_uname a) = true /\ utf8_valid (a_gname a) = true.
+Definition node_fits (n : tnode) : Prop :=
+  match n with
+  | TFile d m mt xs => len d < 2 ^ 128 /\ m < 2 ^ 16 /\ mt < 2 ^ 64 /\
+      Forall (fun kv => len (fst kv) < 2 ^ 32 /\ len (snd kv) < 2 ^ 32 /\ utf8_valid (fst kv) = true) xs
+  | TDir m => m < 2 ^ 16
+  | TLink tg => len (normalize_reference tg) < 2 ^ 128
+  end.
+
+Lemma create_spec_wf a c p n :
+  Forall normal_component p -> forallb utf8_valid p = true -> aux_ok a -> node_fits n ->
+  wf_spec (xspec a (entry_of c p n)).
+Proof.
+  intros Hn Hu (A1 & A2 & A3 & A4 & A5 & A6 & A7 & A8) Hf.
+  assert (N1 : utf8_valid (path_str p) = true) by (unfold path_str, slash1; rewrite utf8_valid_join; exact Hu).
+  assert (N2 : sanitize_name (path_str p) = path_str p) by (apply sanitize_fixed; exact Hn).
+  assert (P : forall m, m < 2 ^ 16 -> wf_perm {| p_uid := a_uid a; p_uname := a_uname a; p_gid := a_gid a; p_gname := a_gname a; p_mode := m |}).
+  { intros m Hm. unfold wf_perm. cbn [p_uid p_gid p_mode p_uname p_gname]. repeat split; assumption. }
+  unfold wf_spec. destruct n as [d m mt xs|m|tg]; cbn [entry_of xspec e_name e_kind e_data e_perm e_mtime e_xattrs
+    sp_name sp_content sp_ctime sp_mtime sp_atime sp_perm sp_xattrs sp_extra node_fits] in *.
+  - destruct Hf as (F1 & F2 & F3 & F4).
+    split; [exact N1|]. split; [exact N2|]. split; [exact F1|]. split; [exact A1|].
+    split; [destruct (c_keep_time c); cbn [opt_all]; [exact F3|exact I]|]. split; [exact A2|].
+    split; [destruct (c_keep_perm c); cbn [option_map opt_all]; [apply P; exact F2|exact I]|].
+    split; [|constructor]. destruct (c_keep_xattr c); [|constructor].
+    apply Forall_forall. intros x Hx. apply in_map_iff in Hx. destruct Hx as (kv & <- & Hkv).
+    rewrite Forall_forall in F4. exact (F4 kv Hkv).
+  - split; [exact N1|]. split; [exact N2|]. split; [vm_compute; reflexivity|]. split; [exact A1|].
+    split; [exact I|]. split; [exact A2|].
+    split; [destruct (c_keep_perm c); cbn [option_map opt_all]; [apply P; exact Hf|exact I]|].
+    split; constructor.
+  - split; [exact N1|]. split; [exact N2|]. split; [exact Hf|]. split; [exact A1|].
+    split; [exact I|]. split; [exact A2|].
+    split; [destruct (c_keep_perm c); cbn [option_map opt_all]; [apply P; vm_compute; reflexivity|exact I]|].
+    split; constructor.
+Qed.
+
 (* ---- the premises are satisfiable: a small tree through AES-256-CBC ------------------------------------------ *)
 Lemma carries_map cfg ctx a (w : xentry -> list bytes) es :
   Forall2 carries (map (fun e => {| j_cfg := cfg; j_ctx := ctx; j_spec := xspec a e; j_wcuts := w e |}) es) es.
